@@ -1,4 +1,4 @@
-import LinOp.C08.Proofs7
+import LinOp.C08.Proofs10
 import LinOp.C08.Known
 import LinOp.Generated.C08Consts
 /-!
@@ -279,6 +279,64 @@ theorem cg_exact_at_n {N : NumOps α} (hN : Lawful N) (P : Params α) (he : 0 < 
   have : s.amul (xs - (traj N P s n).x) = 0 := by rw [hA.toLin.map_sub, hxs, hAx, sub_self]
   exact (sub_eq_zero.mp (hinj _ this)).symm
 
+/-- **Residuals are mutually orthogonal** (classical CG, unpreconditioned kernel `precond = false`): if the first
+`m` iterations of a column are regular steps — the column is not frozen and no safe division fires, i.e. no
+breakdown (`pᵀAp ≥ eps > 0`, `rᵀr ≥ eps`) — and `A` is symmetric, then `r_iᵀ r_j = 0` for ALL `i ≠ j`, `i, j ≤ m`
+(both orders), for every size `n`. -/
+theorem cg_residuals_orthogonal {N : NumOps α} (hN : Lawful N) (P : Params α) (he : 0 < P.eps) (hnp : P.precond = false)
+    {n : Nat} {s : Sys α n} (hA : LinSym s.amul) (xs : Vec α n) (hxs : s.amul xs = (prep N P s).b) (m : Nat)
+    (hreg : ∀ j < m, Regular P s (traj N P s j)) (i j : Nat) (hi : i ≤ m) (hj : j ≤ m) (hij : i ≠ j) :
+    dot (traj N P s i).r (traj N P s j).r = 0 := by
+  have h := residuals_M_orthogonal hN P he hA (preF_sym_of_noprecond P s hnp) xs hxs m hreg i j hi hj hij
+  rwa [traj_zdef N P s j, preF_id_of_noprecond P s hnp] at h
+
+/-- Preconditioned form: with a symmetric preconditioner the residuals are mutually `M⁻¹`-orthogonal,
+`r_iᵀ (M⁻¹ r_j) = 0` for all `i ≠ j ≤ m` (`z_j = M⁻¹ r_j` is the `precond_residual` of the code). -/
+theorem cg_residuals_M_orthogonal {N : NumOps α} (hN : Lawful N) (P : Params α) (he : 0 < P.eps) {n : Nat}
+    {s : Sys α n} (hA : LinSym s.amul) (hM : ∀ u v, dot u (preF P s v) = dot (preF P s u) v)
+    (xs : Vec α n) (hxs : s.amul xs = (prep N P s).b) (m : Nat)
+    (hreg : ∀ j < m, Regular P s (traj N P s j)) (i j : Nat) (hi : i ≤ m) (hj : j ≤ m) (hij : i ≠ j) :
+    dot (traj N P s i).r (traj N P s j).z = 0 ∧ (traj N P s j).z = preF P s (traj N P s j).r :=
+  ⟨residuals_M_orthogonal hN P he hA hM xs hxs m hreg i j hi hj hij, traj_zdef N P s j⟩
+
+/-- **Search directions are mutually A-conjugate**: under the same hypotheses (either kernel, any symmetric
+preconditioner) `p_iᵀ A p_j = 0` for ALL `i ≠ j`, `i, j ≤ m`.  Proved together with the orthogonality of the
+residuals by the classical simultaneous induction over the steps (`full_orthogonality`). -/
+theorem cg_directions_conjugate {N : NumOps α} (hN : Lawful N) (P : Params α) (he : 0 < P.eps) {n : Nat}
+    {s : Sys α n} (hA : LinSym s.amul) (hM : ∀ u v, dot u (preF P s v) = dot (preF P s u) v)
+    (xs : Vec α n) (hxs : s.amul xs = (prep N P s).b) (m : Nat)
+    (hreg : ∀ j < m, Regular P s (traj N P s j)) (i j : Nat) (hi : i ≤ m) (hj : j ≤ m) (hij : i ≠ j) :
+    dot (traj N P s i).p (s.amul (traj N P s j).p) = 0 :=
+  directions_conjugate hN P he hA hM xs hxs m hreg i j hi hj hij
+
+/-- **Termination within `n` steps**: on an `n × n` column there are never `n + 1` regular steps — once the
+first `n` iterations were regular the residual is exactly zero and the next state is not regular (its `rᵀz`
+is `0 < eps`, so the code's safe division / freeze takes over and the iterate stays at the solution).
+`n + 1` mutually orthogonal non-zero vectors do not fit into dimension `n`. -/
+theorem cg_terminates_within_n {N : NumOps α} (hN : Lawful N) (P : Params α) (he : 0 < P.eps) {n : Nat}
+    {s : Sys α n} (hA : LinSym s.amul) (hM : ∀ u v, dot u (preF P s v) = dot (preF P s u) v)
+    (xs : Vec α n) (hxs : s.amul xs = (prep N P s).b)
+    (hreg : ∀ j < n, Regular P s (traj N P s j)) :
+    (traj N P s n).r = 0 ∧ ¬ Regular P s (traj N P s n) :=
+  ⟨exact_at_n hN P he hA hM xs hxs hreg, not_regular_at_n hN P he hA hM xs hxs hreg⟩
+
+/-- **Krylov optimality** (`cg_optimal`): if the first `m` iterations are regular steps, `A` is symmetric positive
+semidefinite (`0 ≤ vᵀAv`) and the preconditioner symmetric and linear, then for every `k ≤ m` the iterate `x_k`
+minimises the A-norm of the error over `x_0 + K_k`, where
+`K_k = span{ (M⁻¹A)^j (M⁻¹ r_0) : j < k }` is the Krylov space of the preconditioned operator:
+`‖x* − x_k‖²_A ≤ ‖x* − (x_0 + u)‖²_A` for every `u ∈ K_k`.  (Proof: `r_k ⟂ p_i` for all `i < k`, so `x_k` is optimal over
+`x_k + span{p_0 … p_{k−1}}`; `x_k − x_0` and `K_k` lie in that span because `M⁻¹A p_i = (z_i − z_{i+1})/α_i`.)
+In particular the error is no larger than for ANY polynomial method of degree `< k` — the starting point of the
+Chebyshev rate. -/
+theorem cg_optimal {N : NumOps α} (hN : Lawful N) (P : Params α) (he : 0 < P.eps) {n : Nat}
+    {s : Sys α n} (hA : LinSym s.amul) (hpsd : ∀ v, 0 ≤ dot v (s.amul v))
+    (hM : ∀ u v, dot u (preF P s v) = dot (preF P s u) v) (hMl : Lin (preF P s))
+    (xs : Vec α n) (hxs : s.amul xs = (prep N P s).b) (m : Nat)
+    (hreg : ∀ j < m, Regular P s (traj N P s j)) (k : Nat) (hk : k ≤ m) (u : Vec α n)
+    (hu : u ∈ Submodule.span α (Set.range fun j : Fin k => (preA P s)^[j] (traj N P s 0).z)) :
+    errA s xs (traj N P s k).x ≤ errA s xs ((traj N P s 0).x + u) :=
+  krylov_optimal_from_x0 hN P he hA hpsd hM hMl xs hxs m hreg k hk u hu
+
 /-! ### the whole call -/
 
 /-- **No NumericalWarning ⇒ tolerance met**: if `linear_cg` returns without the warning then either no
@@ -409,11 +467,11 @@ theorem cg_tridiag_eq_lanczos_partial (N : NumOps α) (P : Params α) {n : Nat} 
 Stretch goal, stated only: `cg_chebyshev_rate`
   for `A`, `M⁻¹` symmetric positive definite, κ the condition number of `M⁻¹A`, and regular steps 0..j−1,
   `errA s xs x_j ≤ (2 ((√κ − 1)/(√κ + 1))^j)² · errA s xs x_0`.
-Not proved.  Missing: (i) the Krylov-optimality `cg_optimal` (x_j minimises the A-norm error over x_0 + K_j;
-full conjugacy, its main ingredient, is `cg_invariants`); (ii) the spectral theorem for `M⁻¹ᐟ² A M⁻¹ᐟ²` over the abstract
-field; (iii) the Chebyshev polynomial bound on [λmin, λmax].  What is proved instead is the exact per-step
-decrease `(rᵀz)²/pᵀAp` (`cg_Anorm_step`) and monotonicity (`cg_Anorm_monotone`); the bound itself is checked on
-the implementation against dense references on every run.
+Not proved.  Available: `cg_optimal` (x_j minimises the A-norm error over x_0 + K_j, hence over all polynomial methods
+of degree < j), `cg_invariants` / `cg_residuals_orthogonal` / `cg_directions_conjugate`, `cg_exact_at_n`.  Missing:
+(i) the spectral theorem for `M⁻¹ᐟ² A M⁻¹ᐟ²` over the abstract ordered field (an eigenbasis, to turn `q(M⁻¹A) e_0` into
+`max |q(λ_i)|`); (ii) the Chebyshev polynomial estimate `min_q max_[λmin,λmax] |q| ≤ 2((√κ−1)/(√κ+1))^j` with `q(0) = 1`.
+The bound itself is checked on the implementation against dense references on every run.
 -/
 
 /-! ### the hypotheses are satisfiable -/
@@ -429,5 +487,25 @@ example {n : Nat} (d : Vec α n) : LinSym (fun v : Vec α n => fun i => d i * v 
   { add := fun u v => by funext i; simp [mul_add]
     smul := fun c u => by funext i; simp [mul_left_comm]
     sym := fun u v => by simp [dot_eq, mul_left_comm, mul_comm] }
+
+/-- The scalar hypotheses are satisfiable: ℝ with `Real.sqrt` is `Lawful`. -/
+example : Lawful realOps := realOps_lawful
+
+/-- The trajectory hypotheses are satisfiable by a non-trivial instance: for the system `2·x = 1` over ℝ with the
+default thresholds the first step is regular, so `cg_exact_at_n` applies with `n = 1` and yields the solution
+`x₁ = 1/2` exactly (un-normalised: `rhs_norm = 1`). -/
+example : (traj realOps realParams realSys 1).x = fun _ => (1 / 2 : ℝ) := by
+  have hreg : ∀ j < 1, Regular realParams realSys (traj realOps realParams realSys j) := by
+    intro j hj
+    have : j = 0 := by omega
+    subst this; exact realSys_regular
+  have hb : realSys.amul (fun _ => (1 / 2 : ℝ)) = (prep realOps realParams realSys).b := by
+    funext i; simp [realSys, prep, realParams, realOps, norm2, dot_eq]
+  have hinj : ∀ v, realSys.amul v = 0 → v = 0 := by
+    intro v hv; funext i
+    have := congrFun hv i
+    simpa [realSys] using this
+  exact (cg_exact_at_n realOps_lawful realParams (by norm_num [realParams]) realSys_linSym
+    (preF_sym_of_noprecond realParams realSys rfl) _ hb hreg).2.2 hinj
 
 end LinOp.C08
